@@ -165,9 +165,15 @@ func (r *Receiver) SegmentHandlerFunc(w http.ResponseWriter, req *http.Request) 
 			}
 			seg := chunk.Segments[0]
 			moof := seg.Fragments[0].Moof
+			if moof == nil || moof.Mfhd == nil || moof.Traf == nil || moof.Traf.Tfhd == nil || moof.Traf.Tfdt == nil || moof.Traf.Trun == nil {
+				return fmt.Errorf("incomplete moof box in chunk")
+			}
 			trd, ok := ch.trDatas[trName]
 			if !ok {
 				return fmt.Errorf("failed to find track data trName: %s", trName)
+			}
+			if trd.init == nil || trd.init.Moov == nil || trd.init.Moov.Mvex == nil || trd.init.Moov.Mvex.Trex == nil {
+				return fmt.Errorf("init segment of %s has no trex box", trName)
 			}
 			trex := trd.init.Moov.Mvex.Trex
 			*defaultDur = trex.DefaultSampleDuration
@@ -440,6 +446,9 @@ func processInitSegment(log *slog.Logger, ch *channel, s stream, data []byte, is
 		return nil, fmt.Errorf("failed to decode init segment: %w", err)
 	}
 	init := iSeg.Init
+	if init == nil || init.Moov == nil || init.Moov.Trak == nil || init.Moov.Trak.Mdia == nil || init.Moov.Trak.Mdia.Mdhd == nil {
+		return nil, fmt.Errorf("no complete moov box in init segment")
+	}
 	err = ch.addInitDataAndUpdateTimescale(s, init)
 	if err != nil {
 		return nil, fmt.Errorf("failed to addInitData: %w", err)
